@@ -52,6 +52,7 @@ import (
 	"github.com/siglens/siglens/pkg/scroll"
 	"github.com/siglens/siglens/pkg/segment/memory/limit"
 	"github.com/siglens/siglens/pkg/segment/query/processor"
+	"github.com/siglens/siglens/pkg/segment/sortindex"
 	"github.com/siglens/siglens/pkg/segment/writer"
 	"github.com/siglens/siglens/pkg/segment/writer/metrics"
 	serverutils "github.com/siglens/siglens/pkg/server/utils"
@@ -77,7 +78,7 @@ func runExitHooks() {
 const c19SID = "0-0-7"
 const c19MID = "0"
 
-var c19PureBuilders = []string{"baseSegDir", "baseVTableDir", "suffixFile", "tagsTreeFile", "dashboardDetails", "scrollResults"}
+var c19PureBuilders = []string{"baseSegDir", "baseVTableDir", "suffixFile", "tagsTreeFile", "dashboardDetails", "scrollResults", "sortIndexFile", "sortIndexFile"}
 var c19RealBuilders = []string{"lookupUpload", "lookupGet", "lookupDelete", "inputlookup", "aliasFile", "mappingFile", "suffixFile", "baseSegDir", "tagsTreeFile"}
 
 // ---------------------------------------------------------------- generator
@@ -668,6 +669,14 @@ func c19Pure(s *c19Sandbox, b, v string) (string, []PropFail, []string, bool) {
 			return "reject", nil, []string{"reject", "gate:validator"}, true
 		}
 		p = metrics.VerifTagsTreeFileName(v, metrics.GetFinalTagsTreeDir(c19MID, 0))
+	case "sortIndexFile":
+		// the sort index of COLUMN v (event key / sort-columns request / sort column of a query) of a segment of index c19i;
+		// the builder validates the name itself (since the repair): its error is the rejection
+		got, err := sortindex.VerifSortIndexFilename(config.GetSegKey(c19SID, "c19i", 0), v, sortindex.SortAsAuto)
+		if err != nil {
+			return "reject", nil, []string{"reject", "gate:builder"}, true
+		}
+		p = got
 	case "dashboardDetails":
 		var got string
 		invoked, _ := s.dispatch("dashboardDetails", v, func(_ *fasthttp.RequestCtx, param string) {
